@@ -29,6 +29,53 @@ pub fn quiet_panics() {
 
 /// Drains an event iterator, checking that `size_hint` is exact before every `next()` and
 /// stays `(0, Some(0))` after exhaustion. Returns the items and the first inexactness found.
+/// The world-level event iterators consumed through the standard adaptors (`nth`, `skip`,
+/// `step_by`, `count`, `last`) must yield what plain `next()` calls yield: `plain` is the sequence
+/// obtained from `next()` on an identical iterator.
+pub fn adaptors_agree<'a, I: Iterator<Item = &'a EntityAny>>(mk: impl Fn() -> I, plain: &[Raw]) -> Option<String> {
+    for k in 1..=3usize {
+        let got: Vec<Raw> = mk().step_by(k).map(|e| e.raw()).collect();
+        let want: Vec<Raw> = plain.iter().copied().step_by(k).collect();
+        if got != want {
+            return Some(format!("step_by({}) yields {:?}, but next() yields {:?}", k, got, plain));
+        }
+    }
+    for k in [1usize, 2, 5] {
+        let got: Vec<Raw> = mk().skip(k).map(|e| e.raw()).collect();
+        let want: Vec<Raw> = plain.iter().copied().skip(k).collect();
+        if got != want {
+            return Some(format!("skip({}) yields {:?}, but next() yields {:?}", k, got, plain));
+        }
+    }
+    // repeated nth with a cycling argument, until it reports the end (and once more after it)
+    let mut it = mk();
+    let mut pos = 0usize;
+    let mut j = 0usize;
+    loop {
+        let n = j % 3;
+        j += 1;
+        let got = it.nth(n).map(|e| e.raw());
+        let want = plain.get(pos + n).copied();
+        if got != want {
+            return Some(format!("nth({}) at position {} yields {:?}, expected {:?} (next() yields {:?})", n, pos, got, want, plain));
+        }
+        if got.is_none() {
+            break;
+        }
+        pos += n + 1;
+    }
+    if it.next().is_some() {
+        return Some("iterator yields an item after nth() returned None".into());
+    }
+    if mk().count() != plain.len() {
+        return Some(format!("count() is {}, next() yields {} items", mk().count(), plain.len()));
+    }
+    if mk().last().map(|e| e.raw()) != plain.last().copied() {
+        return Some("last() disagrees with next()".into());
+    }
+    None
+}
+
 pub fn drain_exact<'a>(mut it: impl Iterator<Item = &'a EntityAny>) -> (Vec<Raw>, Option<String>) {
     let mut out = Vec::new();
     let mut err = None;
